@@ -18,6 +18,10 @@ over a fixed schema.  Compilation only — no database.
 * `variants(desc)`: mechanical single-site near-collision variants of a descriptor (a literal, a list length, a label,
   a type argument, an operator, a flag, a column ...), used by C02.
 * `compositions(descs)`: statement A as subquery / CTE / EXISTS / scalar subquery / INSERT..FROM SELECT source of B (C22).
+* Builder-only descriptor forms (not enumerated by `corpus()`; used by the scopes of C02 / C22): type descriptors with keyword
+  arguments, nested types and dialect types (`T`), upsert SET arguments keyed by expression objects / given as 2-tuples or a
+  ColumnCollection (`_set_arg`), constraint objects as conflict target (`_table_constraint`), dialect syntax extensions
+  (`"ext"` key, `EXT`).
 """
 import datetime
 import json
